@@ -69,6 +69,18 @@ def c_hdr(h):
     return c_list(["(%s, %s)" % (c_str(k), c_pv(v)) for k, v in h.items()])
 
 
+def c_blob(b):
+    """Tokens and payloads are opaque to the model (only their identity matters: they are
+    looked up in the recorded oracle tables), so long ones are represented by a digest."""
+    import hashlib
+    if isinstance(b, str):
+        b = b.encode("utf-8")
+    b = bytes(b)
+    if len(b) <= 24:
+        return c_hex(b)
+    return c_hex(b"\xff\xff" + hashlib.sha256(b).digest()[:14])
+
+
 def c_some(x):
     return "None" if x is None else "(Some %s)" % x
 
@@ -429,12 +441,14 @@ def run(ctx):
     from joserfc.errors import InvalidPayloadError
     from joserfc.rfc7519.claims import convert_claims
     ok, log = ctx.prove(extra_targets=["model/C09Cases.vo"])
+    import time as _t
+    print("prove done at %.1fs ok=%s" % (_t.time() - ctx.t0, ok))
     rng = ctx.rng
     W = World(rng)
 
     cases, meta = [], []
     dist = {"encode_ok": 0, "encode_err": 0, "decode_ok": 0, "decode_err": 0, "convert": 0, "numericdate": 0,
-            "non_object_payload": 0, "non_json_payload": 0, "tampered": 0, "wrong_key": 0, "per_transport": {},
+            "non_object_payload": 0, "non_json_payload": 0, "ambiguous_payload": 0, "tampered": 0, "wrong_key": 0, "per_transport": {},
             "per_key_form": {}, "explicit_typ": 0, "keyset_kid_written": 0, "alg_added_members": 0,
             "datetime_claims": 0, "contract_points_json": 0, "contract_points_transport": 0}
 
@@ -484,8 +498,7 @@ def run(ctx):
                 payload = rec["payload"]
                 pb = payload.encode("utf-8") if isinstance(payload, str) else bytes(payload)
                 tr_term = "(Some (%s, %s, %s, %s))" % (
-                    c_hdr(rec["w_in"]), c_hex(pb),
-                    c_res(rec["out"], lambda t: c_hex(t.encode("ascii") if isinstance(t, str) else t)), c_hdr(rec["w_after"]))
+                    c_hdr(rec["w_in"]), c_blob(pb), c_res(rec["out"], c_blob), c_hdr(rec["w_after"]))
                 # json.dumps oracle point: expected converted claims -> the payload that reached the transport;
                 # its contract (json.loads inverts it) is checked right here
                 if applies:
@@ -496,7 +509,7 @@ def run(ctx):
                                       "the payload handed to the transport is not a JSON serialization of the (converted) claims: "
                                       "claims %r payload %r" % (c0, pb[:200]), rp)
                 if exp_claims is not None:
-                    dumps_term = "(Some (%s, Ok %s))" % (c_pv(exp_claims), c_hex(pb))
+                    dumps_term = "(Some (%s, Ok %s))" % (c_pv(exp_claims), c_blob(pb))
             elif r[0] == "err" and exp_claims is not None:
                 # the transport was not reached: json.dumps / to_bytes raised
                 own = call(lambda: json.dumps(exp_claims, ensure_ascii=False, separators=(",", ":")).encode("utf-8"))
@@ -508,7 +521,7 @@ def run(ctx):
             tok = r[1] if r[0] == "ok" else None
             add("CEnc %s %s %s %s %s %s %s" % (
                 c_hdr(h0), c0_term, dumps_term, tr_term,
-                c_res(r, lambda t: c_hex(t.encode("ascii"))), c_hdr(header), c_after_term),
+                c_res(r, c_blob), c_hdr(header), c_after_term),
                 ("encode", tname, form, repr(h0), repr(c0)))
             if r[0] != "ok":
                 dist["encode_err"] += 1
@@ -526,15 +539,15 @@ def run(ctx):
             dec_calls = R.take()
         drec = dec_calls[0] if dec_calls else None
         if drec is not None:
-            tr_dec = c_res(drec["out"], lambda hp: "(%s, %s)" % (c_hdr(hp[0]), c_hex(hp[1])))
+            tr_dec = c_res(drec["out"], lambda hp: "(%s, %s)" % (c_hdr(hp[0]), c_blob(hp[1])))
             if drec["out"][0] == "ok":
                 lterm, _ = loads_record(drec["out"][1][1])
-                loads_term = "(Some (%s, %s))" % (c_hex(drec["out"][1][1]), lterm)
+                loads_term = "(Some (%s, %s))" % (c_blob(drec["out"][1][1]), lterm)
             else:
                 loads_term = "None"
         else:
             tr_dec, loads_term = "(Err EOracleMiss)", "None"
-        add("CDec %s %s %s %s" % (c_hex(tok.encode("ascii")), tr_dec, loads_term,
+        add("CDec %s %s %s %s" % (c_blob(tok), tr_dec, loads_term,
                                   c_res(d, lambda t: "(%s, %s)" % (c_hdr(t.header), c_pv(t.claims)))),
             ("decode", tname, form, repr(h0), repr(c0)))
         if d[0] != "ok":
@@ -648,18 +661,18 @@ def run(ctx):
         dumps_term = "None"
         if exp is not None and r[0] == "ok":
             lr = call(json.loads, r[1])
-            if lr[0] != "ok" or not json_equal(lr[1], exp):
+            if is_json_value(exp) and (lr[0] != "ok" or not json_equal(lr[1], exp)):
                 ctx.violation({"kind": "numericdate" if any(isinstance(v, datetime.datetime) for v in c0.values()) else "payload-not-claims"},
                               "convert_claims(%r) = %r, expected the JSON of %r" % (c0, r[1][:200], exp),
                               {"kind": "convert", "claims": repr(c0)})
-            dumps_term = "(Some (%s, Ok %s))" % (c_pv(exp), c_hex(r[1]))
+            dumps_term = "(Some (%s, Ok %s))" % (c_pv(exp), c_blob(r[1]))
         elif exp is not None:
             own = call(lambda: json.dumps(exp, ensure_ascii=False, separators=(",", ":")).encode("utf-8"))
             if own[0] == "err" and c_pv_safe(exp) != "None":
                 dumps_term = "(Some (%s, Err %s))" % (c_pv(exp), c_exn(ecls(own[1])))
             else:
                 ctx.violation({"kind": "convert-raises"}, "convert_claims(%r) raised %r" % (c0, r[1]), {"kind": "convert", "claims": repr(c0)})
-        add("CConv %s %s %s %s" % (c0_term, dumps_term, c_res(r, c_hex), c_claims(c)), ("convert", repr(c0)))
+        add("CConv %s %s %s %s" % (c0_term, dumps_term, c_res(r, c_blob), c_claims(c)), ("convert", repr(c0)))
 
     def one_nd(dt, k):
         c = {k: dt}
@@ -714,7 +727,7 @@ def run(ctx):
     NON_JSON = [b"", b"\xff\xfe", b"\xfe\xff", b"\xef\xbb\xbf", b'{"a":"\xc3"}', b'{"a":"\xe2\x82"}', b'{"a":1', b'{"a":1}}',
                 b"{'a':1}", b'{"a":1,}', b"{a:1}", b"\x00", b"not json", b'{"a":1} x', b"\xc3\x28", b'{"a":01}', b'{"a":+1}',
                 b'{"a":"\x01"}', b'{"a":"\\x"}', b"{,}", b'{"a" 1}', b"{" * 30, b"[" * deep, b'{"a":' * deep, b"\xf0\x9f\x98",
-                b'{"a":"\xed\xa0\x80"}', b"\xff", b'["a",', b"tru", b"nul", b".5", b"1.", b'{"a":1}\x00']
+                b"\xff", b'["a",', b"tru", b"nul", b".5", b"1.", b'{"a":1}\x00']
     for _ in range(ctx.scale(40, 1500)):
         NON_JSON.append(bytes(rng.randrange(256) for _ in range(rng.randrange(1, 24))))
         v = gen_value(rng, 2, 4)
@@ -733,40 +746,39 @@ def run(ctx):
             return jws.serialize_compact(h, payload, key, registry=reg), reg
         return jwe.encrypt_compact(h, payload, key, registry=reg), reg
 
-    def one_payload(tr_, payload, is_json):
+    def one_payload(tr_, payload, is_json, ambiguous=False):
         tname, kind, base, fam, added = tr_
         key = W.keys[fam][0]
         try:
-            json.loads(payload)
-            really = True
-        except RecursionError:
-            really = False
-        except ValueError:
-            really = False
-        if is_json is None:
-            is_json = really
-            try:
-                if isinstance(json.loads(payload), dict):
-                    return          # random octets that happen to be an object
-            except (ValueError, RecursionError):
-                pass
+            if isinstance(json.loads(payload), dict) and not ambiguous:
+                return              # random octets that happen to be an object
+        except (ValueError, RecursionError):
+            pass
         tok, reg = build(tr_, payload, key)
         with Recorder() as R:
             d = call(jwt.decode, tok, key, registry=reg)
             dec_calls = R.take()
         ctx.note_case(("payload", tname, payload[:64], len(payload)))
-        dist["non_object_payload" if is_json else "non_json_payload"] += 1
-        small = len(tok) < 20000
-        if small:
-            drec = dec_calls[0] if dec_calls else None
-            if drec is not None and drec["out"][0] == "ok":
-                lterm, _ = loads_record(drec["out"][1][1])
-                add("CDec %s %s (Some (%s, %s)) %s" % (
-                    c_hex(tok.encode("ascii")),
-                    "(Ok (%s, %s))" % (c_hdr(drec["out"][1][0]), c_hex(drec["out"][1][1])),
-                    c_hex(drec["out"][1][1]), lterm,
-                    c_res(d, lambda t: "(%s, %s)" % (c_hdr(t.header), c_pv(t.claims)))),
-                    ("decode-payload", tname, payload[:64]))
+        dist["ambiguous_payload" if ambiguous else "non_object_payload" if is_json else "non_json_payload"] += 1
+        drec = dec_calls[0] if dec_calls else None
+        if drec is not None and drec["out"][0] == "ok":
+            lterm, _ = loads_record(drec["out"][1][1])
+            add("CDec %s %s (Some (%s, %s)) %s" % (
+                c_blob(tok),
+                "(Ok (%s, %s))" % (c_hdr(drec["out"][1][0]), c_blob(drec["out"][1][1])),
+                c_blob(drec["out"][1][1]), lterm,
+                c_res(d, lambda t: "(%s, %s)" % (c_hdr(t.header), c_pv(t.claims)))),
+                ("decode-payload", tname, payload[:64]))
+        else:
+            add("CDec %s (Err EOracleMiss) None %s" % (c_blob(tok), c_res(d, lambda t: "(%s, %s)" % (c_hdr(t.header), c_pv(t.claims)))),
+                ("decode-payload-transport-not-reached", tname, payload[:64]))
+        if ambiguous:
+            # only: whatever comes back is an object
+            if d[0] == "ok" and not isinstance(d[1].claims, dict):
+                ctx.violation({"kind": "non-object-payload-accepted", "payload_is_json": True, "transport_kind": kind},
+                              "jwt.decode returned claims %r that are not an object" % (d[1].claims,),
+                              {"kind": "payload", "transport": tname, "payload_hex": payload.hex()})
+            return
         if not (d[0] == "err" and isinstance(d[1], InvalidPayloadError)):
             what = "returned claims %r" % (d[1].claims,) if d[0] == "ok" else "raised %r" % (d[1],)
             ctx.violation({"kind": "non-object-payload-accepted" if d[0] == "ok" else "invalid-payload-error-class",
@@ -776,9 +788,15 @@ def run(ctx):
                           {"kind": "payload", "transport": tname, "payload_hex": payload.hex() if len(payload) < 4000 else None,
                            "payload_head_hex": payload[:64].hex(), "payload_len": len(payload),
                            "payload_repeat": [payload[:5].hex(), len(payload) // 5] if len(payload) >= 4000 else None})
-        if small:
+        if len(payload) < 4000:
             bad_tokens.append((tr_, tok, payload, reg))
 
+    # accepted by json.loads although not RFC 8259 JSON text / not UTF-8: followed by the model only
+    AMBIGUOUS = ['{"a":1}'.encode("utf-16"), '{"a":1}'.encode("utf-32-le"), b'\xef\xbb\xbf{"a":1}', b'{"a":NaN}', b'{"a":-Infinity}',
+                 b'{"a":"\xed\xa0\x80"}', b'{"a":1,"a":2}', b' {"a":1}\n', b'[NaN]', '[1]'.encode("utf-16"), b'{"a":1e999}']
+    for tr_ in (W.transports[0], W.transports[6]):
+        for p in AMBIGUOUS:
+            one_payload(tr_, p, True, ambiguous=True)
     for tr_ in neg_transports:
         for p in NON_OBJECT:
             one_payload(tr_, p, True)
@@ -843,7 +861,7 @@ def run(ctx):
             dist["tampered"] += 1
             drec = dec_calls[0] if dec_calls else None
             if drec is not None and drec["out"][0] == "err":
-                add("CDec %s %s None %s" % (c_hex(tt.encode("ascii")), c_res(drec["out"], lambda x: "x"),
+                add("CDec %s %s None %s" % (c_blob(tt), c_res(drec["out"], lambda x: "x"),
                                             c_res(d, lambda t: "(%s, %s)" % (c_hdr(t.header), c_pv(t.claims)))),
                     ("decode-tampered", tname, what))
             if d[0] == "ok" or isinstance(d[1], InvalidPayloadError):
@@ -874,6 +892,12 @@ def run(ctx):
     for i in (0, len(cases) // 3, len(cases) // 2, len(cases) - 1):
         if cases:
             ctx.sample({"coq_case": cases[i][:300], "meta": [str(x)[:120] for x in meta[i]]})
+    import os, time
+    if os.environ.get("C09_DEBUG"):
+        with open(os.environ["C09_DEBUG"], "w") as f:
+            for c_, m_ in zip(cases, meta):
+                f.write(c_ + "\n")
+        print("phase python done at %.1fs" % (time.time() - ctx.t0))
     ev = lib.CoqEval(["From Model Require Import Base PyVal C09Jwt C09Cases."], "c09case", "c09_check", "c09_show",
                      shard=120, max_chars=400000)
     res = ev.run(cases)
